@@ -153,6 +153,13 @@ Definition rejected_obs (ds : string) (e : exn) : bool := match resolve ds with 
                 o["listing"] = sb.listing()
                 if c.get("again") and "exc" not in o:
                     try:
+                        # the caller edits what was returned (unit conversion in place) before asking again: a later answer
+                        # must not depend on that
+                        arr = arr.copy()
+                        for part in (r if isinstance(r, tuple) else (r,)):
+                            if isinstance(part, np.ndarray) and part.flags.writeable and part.dtype.kind == "f":
+                                part *= 3.0
+                                part += 7.0
                         r2 = load_dataset(c["name"], unpack_dataset_columns=not c["unpack"])
                         if not c["unpack"]:
                             ok2 = isinstance(r2, tuple) and len(r2) == 2
